@@ -83,6 +83,10 @@ def corpus():
     cs.append((["DCompound", [["DCast", "CTFloat"], ["DInt"]]], ["PInt", 10 ** 400]))                      # F17
     cs.append((["DCompound", [["DCast", "CTInt"], ["DFloat"]]], ["PFloat", pv.PINF]))
     cs.append((["DCompound", [["DCast", "CTInt"], ["DInstance", 20, False, False]]], ["PIndexObj", ["Raises", "EOtherError"]]))
+    two_enums = ["DCompound", [["DEnum", [S("auto"), S("fill")]], ["DFloat"], ["DEnum", [["PInt", 1], ["PInt", 2], ["PInt", 5]]]]]
+    for v in (["PInt", 1], ["PInt", 5], S("fill"), ["PFloat", F(2.0)], ["PBool", True]):                  # enum, converter, enum
+        cs.append((two_enums, v))
+    cs.append((["DCompound", [["DEnum", [S("auto"), S("none")]], ["DCast", "CTStr"], ["DEnum", [["PNone"]]]]], ["PNone"]))
     for an in (True, False):                                                                               # F18
         cs.append((["DInstance", 0, an, False], ["PNone"]))
         cs.append((["DInstance", 0, an, False], ["PInt", 1]))
@@ -104,19 +108,19 @@ def gen_cases(ctx, rnd):
     # every fast leaf configuration x the whole value lattice
     atoms = pv.ATOMS
     for d in leaves:
-        vals = atoms if not quick else rnd.sample(atoms, 45)
+        vals = atoms if not quick else rnd.sample(atoms, 30)
         for v in vals:
             cases.append(dict(d=d, v=v))
     # the switch copy of every fast leaf (validate_trait_complex) against the lattice: Either(leaf, Enum("zz"))
     for d in pv.fast_leaves(True):
-        vals = atoms if not quick else [["PNone"]] + rnd.sample(atoms, 28)
+        vals = atoms if not quick else [["PNone"]] + rnd.sample(atoms, 20)
         for v in vals:
             cases.append(dict(d=["DCompound", [d, ["DEnum", [pv.S("zz")]]]], v=v))
     # float ranges: every bound/mask combination against every float-like atom and the bounds themselves
     floaty = [a for a in atoms if a[0] in ("PFloat", "PFloatSub", "PNpFloat", "PFloatObj", "PInt", "PBool", "PNpInt",
                                            "PIndexObj")]
     for d in pv.float_ranges():
-        for v in (floaty if not quick else rnd.sample(floaty, 18)):
+        for v in (floaty if not quick else rnd.sample(floaty, 12)):
             cases.append(dict(d=d, v=v))
             cases.append(dict(d=["DCompound", [d, ["DStr"]]], v=v))
     # fixed compounds and tuples
@@ -132,6 +136,13 @@ def gen_cases(ctx, rnd):
         ["DCompound", [["DRangeI", 0, 5, 0], ["DFloat"]]], ["DCompound", [["DType", 100, True], ["DInstance", 100, False, False]]],
         ["DCompound", [["DSelf", False], ["DBool"], ["DPrefixList", [pv.W("yes"), pv.W("no")]]]],
         ["DCompound", [["DCast", "CTFloat"], ["DInt"]]], ["DCompound", [["DCast", "CTBool"], ["DStr"]]],
+        # two enumeration-like alternatives with a converting alternative between them
+        ["DCompound", [["DEnum", [pv.S("auto"), pv.S("fill")]], ["DFloat"], ["DEnum", [["PInt", 1], ["PInt", 2], ["PInt", 5]]]]],
+        ["DCompound", [["DEnum", [pv.S("auto"), pv.S("none")]], ["DCast", "CTStr"], ["DEnum", [["PNone"]]]]],
+        ["DCompound", [["DEnum", [pv.S("a"), ["PInt", 12]]], ["DCast", "CTInt"], ["DEnum", [pv.S("12"), pv.S("1"), ["PBool", True]]]]],
+        ["DCompound", [["DEnum", [["PInt", 5]]], ["DComplex"], ["DMap", [[["PInt", 1], pv.S("a")], [["PFloat", pv.F(0.5)], pv.S("b")]]],
+                       ["DEnum", [["PInt", 2], ["PFloat", pv.F(1.5)]]]]],
+        ["DCompound", [["DEnum", [pv.S("abc")]], ["DBool"], ["DEnum", [["PFloat", pv.F(1.0)], ["PInt", 0]]]]],
         ["DCompound", [["DCompound", [["DInt"], ["DStr"]]], ["DFloat"]]],
         ["DCompound", [["DCompound", [["DString", 2, 4, None], ["DInt"]]], ["DCast", "CTInt"]]],
         ["DCompound", [["DFloat"], ["DCompound", [["DString", 0, 5, None], ["DBool"]]], ["DCast", "CTStr"]]],
@@ -141,13 +152,13 @@ def gen_cases(ctx, rnd):
         ["DTuple", [["DCompound", [["DInt"], ["DStr"]]], ["DAny"]]], ["DTuple", [["DFloat"]]],
         ["DTuple", [["DString", 0, 3, None], ["DInt"]]],
     ]
-    tv = pv.tuple_values(rnd, 40 if quick else 400, 2)
+    tv = pv.tuple_values(rnd, 25 if quick else 250, 2)
     for d in fixed:
-        vals = (atoms if not quick else rnd.sample(atoms, 40)) + (tv if d[0] == "DTuple" else tv[:10])
+        vals = (atoms if not quick else rnd.sample(atoms, 30)) + (tv if d[0] == "DTuple" else tv[:8])
         for v in vals:
             cases.append(dict(d=d, v=v))
     # random nestings (depth <= 3)
-    n_cfg, n_val = (45, 22) if quick else (750, 50)
+    n_cfg, n_val = (30, 18) if quick else (450, 40)
     for _ in range(n_cfg):
         d = pv.gen_desc(rnd, 3)
         if d[0] not in ("DTuple", "DCompound"):
